@@ -89,6 +89,16 @@ func (e expectation) admits(status int, location string) bool {
 	return false
 }
 
+// locationFor returns the Location the model expects together with the given redirect status.
+func (e expectation) locationFor(status int) string {
+	for _, r := range e.Redirects {
+		if r.Code == status {
+			return r.Location
+		}
+	}
+	return ""
+}
+
 func isSuccess(status int) bool { return status >= 200 && status <= 299 }
 
 // --- Accept (RFC 7231 5.3.2), independent of the negotiation library ---------------------------
